@@ -193,6 +193,14 @@ def real_tokens(text):
     return "{} {}".format(len(out), " ".join(out))
 
 
+def deep_texts():
+    out = []
+    for m in (50, 98, 99, 100, 101, 150):
+        out += ["1" + "+1" * m, "1" + "*R1" * m, "-" * m + "1", "@" * m + "0", "(" * m + "1" + ")" * m, "1" + "+(1" * m + ")" * m,
+                "R1" + "-1" * m + ", 2", "1" + "/1" * m + "+" + "2*" * m + "3", "(" * (m // 2) + "1" + "+1)" * (m // 2)]
+    return out
+
+
 def real_parse(text):
     from hera.debugger import miniparser as MP
     try:
@@ -264,9 +272,15 @@ def check(seed, n, herad_path=None):
             dbg.feed(shell, c)
         env = env_words(shell)
         pairs = list(boundary_pairs()) if stage == 1 else []
-        for k in range(n // 3 + len(pairs)):
+        deep = deep_texts() if stage == 0 else []
+        for k in range(n // 3 + len(pairs) + len(deep)):
             j = rng.random()
-            if k >= n // 3:
+            if k >= n // 3 + len(pairs):
+                # chains and nestings around the depth that the parser refuses (MAX_DEPTH = 100)
+                trees = None
+                text = deep[k - n // 3 - len(pairs)]
+                dist["deep"] = dist.get("deep", 0) + 1
+            elif k >= n // 3:
                 # the exhaustive boundary family, sometimes embedded in a larger expression
                 t = pairs[k - n // 3]
                 if k % 4 == 3:
